@@ -8,7 +8,7 @@ unset GOSUMDB || true
 go build ./internal/... 
 go vet ./internal/... >/dev/null 2>&1 || true
 # compile (not run) every test package; failures here are reported but do not abort setup of the others
-for d in c*/; do
+for d in */; do
   p=${d%/}
   if ls $p/*_test.go >/dev/null 2>&1; then
     go test -c -tags verif -vet=off -o /dev/null ./$p || echo "setup: build of $p failed" >&2
